@@ -44,6 +44,8 @@ def programs(tier):
         for o in T.CONS:
             if tier == "quick" and not (o[0] in outer_q or c[0] in ("if_then",)):
                 continue
+            if tier == "quick" and "x" in T.flags(c) and o[0] != "if_then":
+                continue
             if o[0] in ("where_cons", "forall_cons") or c[0] == o[0] and tier == "quick":
                 continue
             out.append(dict(unit="program", spec=[], exec=[[o[0], [[c[0], ["assign"]], "call_plain"]]]))
